@@ -54,13 +54,18 @@ def run(P, rep, tier):
     # are part of this check as well (rule ids C01.R1/R2/R3/R6)
     from . import c01
 
-    for fn in (c01.r1_children, c01.r2_delete_marker, c01.r3_create, c01.r4_markers, c01.r6_move_copy, c01.r7_snapshot_before_mutation, c01.r8_resolution_owner):
+    for fn in (c01.r1_children, c01.r2_delete_marker, c01.r3_create, c01.r4_markers, c01.r6_move_copy, c01.r7_snapshot_before_mutation, c01.r8_resolution_owner, c01.r9_handle_provenance):
         rep.attempt(fn, P, rep, ctx)
     # copy semantics (what is copied, attribute switch, children) are part of the driver agreement: the IH5 copy is
     # implemented in h5_copy_from_to, the HDF5 one by h5py (rule ids C05.R4)
     from . import c05
 
     rep.attempt(c05.r4_copy_coverage, P, rep, ctx)
+    # an operation that only one driver supports: rewriting a stored dataset in place (h5py allows it, an IH5 dataset of an
+    # earlier patch refuses) -- the container code replaces datasets instead (rule id C06.R8)
+    from . import c06
+
+    rep.attempt(c06.r8_replace_not_rewrite, P, rep, ctx)
     rep.floor("C09.R1", 60, "raw uses")
     rep.floor("C09.R2", 40)
     rep.floor("C09.R3", 3)
